@@ -366,7 +366,7 @@ pub fn configs() -> Vec<Cfg> {
 
 pub fn run(thorough: bool) -> i32 {
     let mut rep = Report::new("C15", "model_checking", if thorough { "thorough" } else { "quick" });
-    let depth = if thorough { 8 } else { 6 };
+    let depth = if thorough { 9 } else { 6 };
     let cap = 300_000;
     let mut states = 0u64;
     let mut trans = 0u64;
